@@ -122,17 +122,18 @@ type behaviour struct {
 // ---- replay configuration ----
 
 type replayCfg struct {
-	Engine    string
-	Family    string
-	Base      uint64
-	KeyNames  []string
-	Prefixes  []string // watch prefix id -> relative raw prefix
-	CacheSize int
-	SeqDetail bool
-	TsoDetail bool   // tso.Commit in two steps (the sequencer also parks at tso.commit)
-	API       string // "" / "native": backend API; "etcd": writes go through the etcd-compatible Txn handler
-	SubCap    int    // > 0: abstract subscriber buffer capacity, realised with filler batches
-	Timeout   time.Duration
+	Engine       string
+	Family       string
+	Base         uint64
+	KeyNames     []string
+	Prefixes     []string // watch prefix id -> relative raw prefix
+	CacheSize    int
+	SeqDetail    bool
+	TsoDetail    bool   // tso.Commit in two steps (the sequencer also parks at tso.commit)
+	RecordDetail bool   // the compactor also stops at the reads and writes of the compaction record
+	API          string // "" / "native": backend API; "etcd": writes go through the etcd-compatible Txn handler
+	SubCap       int    // > 0: abstract subscriber buffer capacity, realised with filler batches
+	Timeout      time.Duration
 }
 
 var writerStops = map[string]bool{"deal": true, "kv.commit": true, "kv.get": true, "kv.iter": true, "notify": true}
@@ -140,7 +141,8 @@ var writerStops = map[string]bool{"deal": true, "kv.commit": true, "kv.get": tru
 // the stepwise compactor (CStart / CIter / CDel) stops where its worker opens the iterator and at
 // every engine deletion
 var compactStops = map[string]bool{"kv.iter": true, "kv.del": true, "kv.delcur": true}
-var compactActions = map[string]bool{"CStart": true, "CIter": true, "CDel": true}
+var compactStopsRec = map[string]bool{"kv.iter": true, "kv.del": true, "kv.delcur": true, "kv.get": true, "kv.commit": true}
+var compactActions = map[string]bool{"CStart": true, "CIter": true, "CDel": true, "CRecGet": true, "CRecCas": true, "CScanGet": true, "CScanPut": true}
 
 // reader processes (RInvoke / RCheck / RIter) stop at the compaction-record check and where the iterator is opened
 var readStops = map[string]bool{"kv.get": true, "kv.iter": true}
@@ -353,6 +355,9 @@ var firstWriterAction = map[string]bool{"CreateDeal": true, "UpdateDeal": true, 
 // stopsFor returns the stop labels of a spec action.
 func (rs *runState) stopsFor(s specStep) map[string]bool {
 	if compactActions[s.A] {
+		if rs.cfg.RecordDetail {
+			return compactStopsRec
+		}
 		return compactStops
 	}
 	if readActions[s.A] {
@@ -517,15 +522,19 @@ func (rs *runState) startCompact(s specStep) error {
 		env.Rec.Log(gate.Event{"e": "CReturn", "p": s.P, "req": gate.Clip(s.X), "hdr": gate.Clip(hdr), "err": errStr(err), "minunc": gate.Clip(minunc)})
 		env.Sched.Finish(s.P)
 	}()
-	st, err := env.Sched.RunToStop(s.P, compactStops, rs.cfg.Timeout)
+	stops, want := compactStops, "kv.iter"
+	if rs.cfg.RecordDetail {
+		stops, want = compactStopsRec, "kv.get"
+	}
+	st, err := env.Sched.RunToStop(s.P, stops, rs.cfg.Timeout)
 	if err != nil {
 		return err
 	}
 	if st.Finished {
-		return fmt.Errorf("CStart: %s returned before opening an iterator", s.P)
+		return fmt.Errorf("CStart: %s returned before reaching %s", s.P, want)
 	}
-	if st.Label != "kv.iter" {
-		return fmt.Errorf("CStart: %s is at gate %s, specification expects kv.iter", s.P, st.Label)
+	if st.Label != want {
+		return fmt.Errorf("CStart: %s is at gate %s, specification expects %s", s.P, st.Label, want)
 	}
 	return nil
 }
@@ -891,6 +900,7 @@ func cmdReplay(args []string) int {
 	seqDetail := fs.Bool("seqdetail", false, "cache insert is a separate sequencer step")
 	tsoDetail := fs.Bool("tsodetail", false, "tso.Commit is two sequencer steps (implies -seqdetail)")
 	apiKind := fs.String("api", "native", "native | etcd: the API the writers use")
+	recordDetail := fs.Bool("recorddetail", false, "the compactor also stops at the reads and writes of the compaction record")
 	base := fs.Uint64("base", 3, "base revision")
 	subcap := fs.Int("subcap", 0, "abstract subscriber buffer capacity (0 = no scaling)")
 	fs.Parse(args)
@@ -908,7 +918,7 @@ func cmdReplay(args []string) int {
 		return 2
 	}
 	defer eng.Close()
-	cfg := replayCfg{Engine: *engine, Base: *base, KeyNames: defaultKeyNames, Prefixes: defaultPrefixes, CacheSize: *cache, SeqDetail: *seqDetail || *tsoDetail, TsoDetail: *tsoDetail, API: *apiKind, SubCap: *subcap, Timeout: 3 * time.Second}
+	cfg := replayCfg{Engine: *engine, Base: *base, KeyNames: defaultKeyNames, Prefixes: defaultPrefixes, CacheSize: *cache, SeqDetail: *seqDetail || *tsoDetail, TsoDetail: *tsoDetail, API: *apiKind, RecordDetail: *recordDetail, SubCap: *subcap, Timeout: 3 * time.Second}
 	rep := &replayReport{ActionCount: map[string]int{}, Engine: *engine}
 	start := time.Now()
 	w, err := os.Create(*out)
